@@ -120,14 +120,14 @@ var boundsExceptions = map[string]struct {
 	max    int
 	reason string
 }{
-	"(*jsonrpc2.Method).Call":                  {1, "reply[ErrPos]: ErrPos is computed at registration from the method's own result list (0 or 1 only when that result exists, else -1, which is tested)"},
-	"(jsonrpc2.pendingQueue).Less":             {2, "sort.Interface contract: indices are < Len()"},
-	"(jsonrpc2.pendingQueue).Swap":             {2, "sort.Interface contract: indices are < Len()"},
-	"jsonrpc2.pendingOldest":                   {1, "queue[:num]: num is clamped to len(pending) and the queue holds len(pending) items; num comes from the positive PendingDiscard setting"},
-	"(*badger.badgerStore).GetAccountNodes$1":  {1, "key[len(prefix):]: the iterator position satisfies ValidForPrefix(prefix)"},
-	"(*badger.badgerStore).ActiveHosts$2":      {4, "rand.Shuffle contract: i, j < len(r)"},
-	"(*payment.PaymentService).Account":        {1, "string(nodeID)[:12]: ids in the account store are verified identities (42-character wallets or 128-character node ids) that AddAccountNode found among the registered nodes"},
-	"(pretty.Abbreviated).String":              {1, "Original[:CutTo]: guarded by len(Original) > MaxLen, and CutTo <= MaxLen at every Abbrev call site (checked by the abbrev-callers obligation)"},
+	"(*jsonrpc2.Method).Call":                 {1, "reply[ErrPos]: ErrPos is computed at registration from the method's own result list (0 or 1 only when that result exists, else -1, which is tested)"},
+	"(jsonrpc2.pendingQueue).Less":            {2, "sort.Interface contract: indices are < Len()"},
+	"(jsonrpc2.pendingQueue).Swap":            {2, "sort.Interface contract: indices are < Len()"},
+	"jsonrpc2.pendingOldest":                  {1, "queue[:num]: num is clamped to len(pending) and the queue holds len(pending) items; num comes from the positive PendingDiscard setting"},
+	"(*badger.badgerStore).GetAccountNodes$1": {1, "key[len(prefix):]: the iterator position satisfies ValidForPrefix(prefix)"},
+	"(*badger.badgerStore).ActiveHosts$2":     {4, "rand.Shuffle contract: i, j < len(r)"},
+	"(*payment.PaymentService).Account":       {1, "string(nodeID)[:12]: ids in the account store are verified identities (42-character wallets or 128-character node ids) that AddAccountNode found among the registered nodes"},
+	"(pretty.Abbreviated).String":             {1, "Original[:CutTo]: guarded by len(Original) > MaxLen, and CutTo <= MaxLen at every Abbrev call site (checked by the abbrev-callers obligation)"},
 }
 
 func funcAtPos(p *an.Prog, file string, line int) *ssa.Function {
@@ -258,7 +258,9 @@ func boundsGuarded(p *an.Prog, fn *ssa.Function, file string, line, col int) (bo
 					}
 				}
 			}
-			if lenRel(x.X, func(op token.Token, other ssa.Value) bool { return (op == token.GEQ || op == token.GTR) && other == x.High }) {
+			if lenRel(x.X, func(op token.Token, other ssa.Value) bool {
+				return (op == token.GEQ || op == token.GTR) && other == x.High
+			}) {
 				enough = true
 			}
 			if pos && enough {
